@@ -3,45 +3,52 @@
 
 Each fault is a textual edit of a scratch COPY of /repo's altrios-core sources
 (never /repo itself). For every fault the named property check is run against
-the copy (VERIF_REPO) and must exit 1; the result table is printed.
+the copy (VERIF_REPO) and must exit 1 (or the `expect`ed code); the result table is printed.
+Also used as a library by check.py's thorough tier (run_fault).
 """
 import json, os, shutil, subprocess, sys, tempfile
 
 ROOT = os.path.dirname(os.path.dirname(os.path.abspath(__file__)))
-REPO = "/repo"
+REPO = os.environ.get("VERIF_REPO", "/repo")
+
+
+def run_fault(f, props=None, tier="quick"):
+    """-> list of (prop, rc, obligations, undecided_reason) for one fault, on its own scratch copy (removed afterwards)"""
+    tmp = tempfile.mkdtemp(prefix="vxmut_", dir="/tmp")
+    out = []
+    try:
+        dst = os.path.join(tmp, "rust", "altrios-core")
+        shutil.copytree(os.path.join(REPO, "rust"), os.path.join(tmp, "rust"), ignore=shutil.ignore_patterns("target"))
+        path = os.path.join(dst, f["file"]) if f["file"].startswith("altrios-proc-macros/") else os.path.join(dst, "src", f["file"])
+        orig = open(path).read()
+        if orig.count(f["old"]) < 1:
+            return [(p, "ANCHOR-LOST", "", "") for p in (props or f["props"])]
+        open(path, "w").write(orig.replace(f["old"], f["new"], 1))
+        for p in (props or f["props"]):
+            env = dict(os.environ, VERIF_REPO=tmp, VERIF_EVIDENCE_DIR=os.path.join(tmp, "evidence"), VERIF_TIER="quick", VERIF_NO_SELFTEST="1")
+            r = subprocess.run([sys.executable, os.path.join(ROOT, "run", "check.py"), p, "--tier", "quick"], capture_output=True, text=True, env=env)
+            obl = [l.split("obligation=")[1].split()[0] for l in r.stdout.split("\n") if l.startswith("VIOLATION") and "obligation=" in l]
+            und = [l for l in r.stdout.split("\n") if l.startswith("UNDECIDED")]
+            out.append((p, r.returncode, ",".join(obl)[:160], (und[0][:200] if und and r.returncode == 2 else "")))
+    finally:
+        shutil.rmtree(tmp, ignore_errors=True)
+    return out
+
 
 def main():
     faults = json.load(open(sys.argv[1]))
     only = set(sys.argv[2:])
-    tmp = tempfile.mkdtemp(prefix="vxmut_", dir="/tmp")
-    dst = os.path.join(tmp, "rust", "altrios-core")
-    shutil.copytree(os.path.join(REPO, "rust"), os.path.join(tmp, "rust"), ignore=shutil.ignore_patterns("target"))
     results = []
-    try:
-        for f in faults:
-            if only and f["id"] not in only:
-                continue
-            path = os.path.join(dst, f["file"]) if f["file"].startswith("altrios-proc-macros/") else os.path.join(dst, "src", f["file"])
-            orig = open(path).read()
-            if orig.count(f["old"]) < 1:
-                results.append((f["id"], "ANCHOR-LOST", ""))
-                continue
-            mutated = orig.replace(f["old"], f["new"], 1)
-            open(path, "w").write(mutated)
-            row = []
-            for p in f["props"]:
-                env = dict(os.environ, VERIF_REPO=tmp, VERIF_EVIDENCE_DIR=os.path.join(tmp, "evidence"))
-                r = subprocess.run([sys.executable, os.path.join(ROOT, "run", "check.py"), p], capture_output=True, text=True, env=env)
-                obl = [l.split("obligation=")[1].split()[0] for l in r.stdout.split("\n") if l.startswith("VIOLATION") and "obligation=" in l]
-                und = [l for l in r.stdout.split("\n") if l.startswith("UNDECIDED")]
-                row.append("%s:rc=%d %s %s" % (p, r.returncode, ",".join(obl)[:160], (und[0][:200] if und and r.returncode == 2 else "")))
-            open(path, "w").write(orig)
-            results.append((f["id"], " | ".join(row), f.get("note", "")))
-            print(f["id"], "->", " | ".join(row), flush=True)
-    finally:
-        shutil.rmtree(tmp, ignore_errors=True)
+    for f in faults:
+        if only and f["id"] not in only:
+            continue
+        row = run_fault(f)
+        txt = " | ".join("%s:rc=%s %s %s" % r for r in row)
+        results.append((f["id"], txt, f.get("note", "")))
+        print(f["id"], "->", txt, flush=True)
     caught = sum(1 for r in results if "rc=1" in r[1])
     print("faults=%d caught=%d" % (len(results), caught))
+
 
 if __name__ == "__main__":
     main()
